@@ -134,59 +134,67 @@ def c_ptr_expr(n):
 
 
 def c_special_elements(fn):
-    """{enumerator: field} for `if (element == mjSTATE_X) { ... d->field[...] ... }` in mj_getState/mj_setState."""
+    """{enumerator: field} for the branch taken when `element == mjSTATE_X` (either polarity of the test, `continue`-style
+    guards nested) in mj_getState/mj_setState: the data field that branch touches."""
+    from .. import norm
     out = {}
     for n in cir.walk(cir.body(fn)):
         if n.get("k") != "IfStmt":
             continue
-        c = cir.kids(n)
-        cond = cir.strip(c[0]) if c else None
-        if cond is None or cond.get("k") != "BinaryOperator" or cond.get("op") != "==":
-            continue
-        labs = [_label(x) for x in cir.kids(cond)]
-        lab = next((x for x in labs if x), None)
-        if not lab or not lab.startswith("mjSTATE_"):
-            continue
-        fields = set()
-        for x in cir.walk(c[1]):
-            if x.get("k") == "MemberExpr" and x.get("arrow"):
-                base = cir.strip(cir.kids(x)[0])
-                if base is not None and base.get("k") == "DeclRefExpr" and (base.get("ref") or {}).get("n") == "d":
-                    fields.add(x.get("n"))
-        if len(fields) != 1:
-            raise AnalysisError(f"{SUPPORT_C}:{n.get('line')}: special case for {lab} touches {sorted(fields)}")
-        out[lab] = fields.pop()
+        _pre, cond, then, els = norm._if_parts(n)
+        for atom, pol in norm.split_cond(cond, True):
+            if atom.get("k") != "BinaryOperator" or atom.get("op") != "==":
+                continue
+            labs = [_label(x) for x in cir.kids(atom)]
+            lab = next((x for x in labs if x), None)
+            if not lab or not lab.startswith("mjSTATE_"):
+                continue
+            branch = then if pol else els
+            if branch is None:
+                continue
+            dnames = {p.get("n") for p in cir.params(fn) if "mjData" in (p.get("t") or "")}
+            fields = set()
+            for x in cir.walk(branch):
+                if x.get("k") == "MemberExpr" and x.get("arrow"):
+                    base = cir.strip(cir.kids(x)[0])
+                    if base is not None and base.get("k") == "DeclRefExpr" and (base.get("ref") or {}).get("n") in dnames:
+                        fields.add(x.get("n"))
+            if len(fields) != 1:
+                raise AnalysisError(f"{SUPPORT_C}:{n.get('line')}: special case for {lab} touches {sorted(fields)}")
+            out[lab] = fields.pop()
     return out
 
 
 def c_loop_shape(fn):
-    """True if fn has `for (i=0; i < mjNSTATE; i++) { element = 1<<i; if (element & sig) ...`."""
-    for loop in cir.walk(cir.body(fn)):
-        if loop.get("k") != "ForStmt":
+    """True if fn has an element loop counting i from 0 to mjNSTATE by one with element = 1<<i and everything the body does
+    guarded by `element & sig` (for or while form, if- or continue-style guard; decided on the canonical view)."""
+    from .. import norm
+    from . import c26
+    body = cir.body(fn)
+    for lp in cir.walk(body):
+        if lp.get("k") not in ("ForStmt", "WhileStmt"):
             continue
-        c = cir.kids(loop)
-        texts = [cir.text(x) if x and x.get("k") not in ("DeclStmt", "CompoundStmt") else "" for x in c]
-        if not any(t.replace(" ", "") == "i<mjNSTATE" for t in texts):
-            continue
-        if not any(t.replace(" ", "") in ("i++", "++i") for t in texts):
-            continue
-        init_zero = False
-        for x in cir.walk(c[0]) if c and c[0] else ():
-            if x.get("k") == "VarDecl" and x.get("n") == "i":
+        lb = cir.kids(lp)[-1]
+        for x in cir.walk(lb):
+            if x.get("k") == "VarDecl" and x.get("init"):
                 k = [y for y in cir.kids(x) if y]
-                init_zero = bool(k) and cir.text(k[0]) == "0"
-        body = c[-1]
-        elem = guard = False
-        for x in cir.walk(body):
-            if x.get("k") == "VarDecl" and x.get("n") == "element":
-                k = [y for y in cir.kids(x) if y]
-                elem = bool(k) and cir.text(k[0]).replace(" ", "") == "1<<i"
-            if x.get("k") == "IfStmt":
-                t = cir.text(cir.kids(x)[0]).replace(" ", "")
-                if t in ("element&sig", "sig&element", "element&srcsig"):
-                    guard = True
-        if init_zero and elem and guard:
-            return True
+                e = cir.strip(k[-1]) if k else None
+                if e is not None and e.get("k") == "BinaryOperator" and e.get("op") == "<<" and cir.text(cir.kids(e)[0]) == "1" and \
+                        (cir.strip(cir.kids(e)[1]) or {}).get("k") == "DeclRefExpr":
+                    cl = c26.counted_loop(body, lp, cir.strip(cir.kids(e)[1])["ref"]["id"])
+                    if cl["problems"] or cl["start"] != "0" or cl["bound"] != "mjNSTATE":
+                        continue
+                    E = x.get("n")
+                    sigs = [p.get("n") for p in cir.params(fn) if (p.get("t") or "") == "int"]
+                    effects = [y for y in cir.walk(lb) if (cir.is_call(y) and cir.callee(y) not in c26.STATE_PRIMS) or
+                               y.get("k") == "CompoundAssignOperator"]
+                    okk = bool(effects)
+                    for y in effects:
+                        gs = [(cir.text(c_), p_) for c_, p_ in (norm.guards(lb, y) or [])]
+                        if not any((f"{E} & {s_}", True) in gs or (f"{s_} & {E}", True) in gs for s_ in sigs):
+                            okk = False
+                    if okk:
+                        return True
     return False
 
 
@@ -198,11 +206,14 @@ def c_state_facts(repo):
             raise AnalysisError(f"{SUPPORT_C}: anchor vanished: {f}")
     size = c_switch(u.funcs["mj_stateElemSize"], c_size_expr)
     ptr = c_switch(u.funcs["mj_stateElemPtr"], c_ptr_expr)
-    sg = c_special_elements(u.funcs["mj_getState"])
-    ss = c_special_elements(u.funcs["mj_setState"])
+    from .. import norm
+    from . import c26
+    cview = {f: norm.canon(u, f, exclude=c26.STATE_PRIMS) for f in ("mj_stateSize", "mj_getState", "mj_setState")}
+    sg = c_special_elements(cview["mj_getState"])
+    ss = c_special_elements(cview["mj_setState"])
     if sg != ss:
         raise AnalysisError(f"{SUPPORT_C}: mj_getState and mj_setState special-case different elements: {sg} vs {ss}")
-    loops = {f: c_loop_shape(u.funcs[f]) for f in ("mj_stateSize", "mj_getState", "mj_setState")}
+    loops = {f: c_loop_shape(cview[f]) for f in ("mj_stateSize", "mj_getState", "mj_setState")}
     lines = {f: u.funcs[f].get("line") for f in need}
     return size, ptr, sg, loops, lines
 
